@@ -188,6 +188,11 @@ unsigned int get_index_reg(struct instr *instruc, const char *mem, char reg[]) {
   // check closing bracket
   if (mem[len - 1] != ']')
     return EXIT_FAILURE;
+  // one pair of brackets only: "[[rax]" leaves a bracket open, "[rax]]" closes one twice
+  const char *open_bracket = strchr(mem, '[');
+  if (open_bracket == NULL || strchr(open_bracket + 1, '[') != NULL ||
+      strchr(mem, ']') != mem + len - 1)
+    return EXIT_FAILURE;
   // default sib_disp;
   instruc->sib_disp = SIB;
   // copies the index register from mem to reg ex: "[rcx+rax+0x16]" -> "rax"
